@@ -184,7 +184,7 @@ def run_case(ctx, case, rec, d):
             lims = [j for j, v in enumerate(fv) if v in (2, 3)]
             if len(lims) >= 2 and 2 in fv and 3 in fv and len(set(er[j] for j in lims)) > 1:
                 rec.cls('two-limits-different-confidence')
-            if st['chi2'][1] == st['chi2'][3]:
+            if abs(st['chi2'][1] - st['chi2'][3]) <= 1e-9 * (1 + abs(st['chi2'][1])):          # tied up to rounding
                 rec.cls('duplicate-model-tied')
             if first:
                 rec.sample({'config': case, 'bands': bands, 'flags': list(fv), 'flux': fl, 'error': er,
